@@ -1,6 +1,6 @@
 (** Proofs for C12 (totality of the four entry points). *)
 From Gnmi Require Import Base.Prelude Total.IngestModel Total.SubReqModel
-  Total.ClientRecvModel Total.CliDisplayModel Total.C12Check.
+  Total.ClientRecvModel Total.CliDisplayModel Total.StreamModel Total.C12Check.
 
 Lemma complete_path_no_panic pf p w : complete_path pf p <> Panic w.
 Proof.
@@ -1363,12 +1363,13 @@ Definition case_obs_ok (c : case) : Prop :=
   | CSub e _ o _ _ => se_has_peer e = true -> o <> OPanic
   | CRecv _ _ _ o _ _ => o <> OPanic
   | CCli _ _ _ _ _ o _ => o <> OPanic
+  | CStream items => Forall (fun it => fst (snd it) <> OPanic) items
   | CMgr _ rs => Forall (fun ro => fst (snd ro) <> OPanic) rs
   end.
 
 Theorem check_case_sound c : check_case c = [] -> case_obs_ok c.
 Proof.
-  destruct c as [opts targets steps|e f o code synced|jvalid qt rs o evs leaves|jvalid dt qt with_ts rs o recs|cb mrs];
+  destruct c as [opts targets steps|e f o code synced|jvalid qt rs o evs leaves|jvalid dt qt with_ts rs o recs|items|cb mrs];
     cbn [check_case case_obs_ok].
   - destruct (existsb (String.eqb "") targets) eqn:Et; [|apply check_ingest_sound].
     exact (fun _ => I).
@@ -1377,6 +1378,9 @@ Proof.
     intros H ->. apply app_nil_inv in H as [_ H]. discriminate H.
   - destruct (query_display defect_C12_4 (jv_of jvalid) dt qt with_ts rs) as [mrecs mo].
     intros H ->. apply app_nil_inv in H as [_ H]. cbn in H. destruct (class_cli dt rs); discriminate H.
+  - generalize 0%nat. induction items as [|[[n dup] [o gone]] items IH]; intros i; cbn [check_stream]; [constructor|].
+    intros H. apply app_nil_inv in H as [_ H]. apply app_nil_inv in H as [H2 H3].
+    constructor; [|eapply IH; eauto]. cbn. intros ->. discriminate H2.
   - generalize 0%nat. induction mrs as [|[r [o code]] mrs IH]; intros i; cbn [check_mgr]; [constructor|].
     intros H. apply app_nil_inv in H as [_ H]. apply app_nil_inv in H as [H2 H3].
     constructor; [|eapply IH; eauto]. cbn. intros ->. discriminate H2.
@@ -1393,3 +1397,31 @@ Proof.
   exists (Notif 1 (Some (GPath "" "" [] [])) [Upd None (TVInt 1)] [] false), panic_join.
   split; reflexivity.
 Qed.
+
+(** * Entry point 2b: the sender's post-processing of a queued notification *)
+Lemma stream_post_total_lemma dup n w : stream_post dup n <> Panic w.
+Proof. discriminate. Qed.
+
+(** what "the target is gone" means: one delete, no origin, index path "*" *)
+Lemma is_target_delete_spec n :
+  is_target_delete n = true <->
+  exists d, n_del n = [d] /\ gp_origin (gp_of_opt (n_prefix n)) = "" /\
+            to_strings false (gp_of_opt (n_prefix n)) ++ to_strings false d = ["*"].
+Proof.
+  unfold is_target_delete. destruct (n_del n) as [|d [|d2 ds]].
+  - split; [discriminate|intros (d & H & _); discriminate].
+  - rewrite andb_true_iff, String.eqb_eq. split.
+    + intros [Ho Hp]. exists d. split; [reflexivity|]. split; [assumption|].
+      destruct (to_strings false (gp_of_opt (n_prefix n)) ++ to_strings false d) as [|x [|y l]]; try discriminate.
+      apply String.eqb_eq in Hp. now subst.
+    + intros (d' & Hd & Ho & Hp). inversion Hd; subst d'. split; [assumption|]. now rewrite Hp.
+  - split; [discriminate|intros (d' & H & _); discriminate].
+Qed.
+
+(** deletes as the cache builds them for leaves of either path encoding, and
+    for an atomic leaf under an element-less prefix, are handled *)
+Example stream_post_example :
+  stream_post 0 (Notif 2 (Some (GPath "t1" "" [] [])) [] [GPath "" "" [] ["a"; "b"]] false) = Ok false /\
+  stream_post 1 (Notif 2 (Some (GPath "t1" "o" [] [])) [] [GPath "" "" [] []] false) = Ok false /\
+  stream_post 0 (Notif 2 (Some (GPath "t1" "" [] [])) [] [GPath "" "" [("*", [])] []] false) = Ok true.
+Proof. repeat split. Qed.
